@@ -19,6 +19,7 @@ import (
 	"crypto/sha256"
 	"fmt"
 	"math/big"
+	"os"
 	"sort"
 	"testing"
 	"time"
@@ -551,8 +552,16 @@ func (w *world) buildR1(m *mem, deviate bool) *item {
 			devk = ""
 			break
 		}
-		a.info = cands[v%len(cands)]
-		a.info.MemberID = m.id
+		src := cands[v%len(cands)]
+		switch (v / 7) % 3 {
+		case 0: // the whole message
+			a.info = src
+			a.info.MemberID = m.id
+		case 1: // only the one-time key and its proof
+			a.info.OneTimePubKey, a.info.OneTimeSignature = src.OneTimePubKey, src.OneTimeSignature
+		default: // only the commitments and the proof for the constant term
+			a.info.CoefficientCommits, a.info.A0Signature = src.CoefficientCommits, src.A0Signature
+		}
 		it.wellFormed = false
 	case "wrongmid": // a message that is valid for another member id, sent from the own account
 		o := w.target(m, m.spec.To)
@@ -1117,6 +1126,9 @@ func (w *world) observe(res *sim.BlockResult) {
 		if !certain {
 			w.v.Count("uncertain_acceptance", 1)
 		}
+		if os.Getenv("VERIF_C04_DEBUG") != "" {
+			fmt.Printf("h=%d %s %s claimed=%d code=%d expect=%v/%v log=%q\n", res.Height, it.kind, it.label, it.claimed, tr.Code, exp, certain, tr.Log)
+		}
 		if !got {
 			w.v.Count("rejected_txs", 1)
 			for _, e := range tr.Events {
@@ -1297,6 +1309,9 @@ func (w *world) endBlock(res *sim.BlockResult) {
 		}
 	}
 	got := w.gr.Group.Status
+	if os.Getenv("VERIF_C04_DEBUG") != "" {
+		fmt.Printf("h=%d end: status=%v model=%v pubkey=%x malicious=%v accBroken=%v\n", res.Height, got, w.status, []byte(w.gr.Group.PubKey), mal, w.accBroken)
+	}
 	if got == tsstypes.GROUP_STATUS_ACTIVE {
 		if w.mustNotAct != "" {
 			w.fail("C04/active-despite-cheater", "group is ACTIVE although %s", w.mustNotAct)
